@@ -3,8 +3,8 @@ CONSTANTS
   NAuthor = 2
   NLog = 1
   MaxSeq = 1
-  Caps = {99, 1}
-  StoreChoices <- AllPrefixes
+  Caps = {99}
+  StoreChoices <- EmptyOrFull
   LogsChoices <- LogsAll
   MaxMut = 1
   MutKinds = {"prune", "delete", "append"}
